@@ -132,15 +132,20 @@ PROPS = {
                                                        "element names) and establishes a cycle-free path to the root for every target, which bounds both loops of "
                                                        "validate_and_get_values.  Save/load: for the sgx_attestation_key and sgx_quote elements of version 2, to_dict writes "
                                                        "and _init_with_map reads back every field the verdict depends on (contracts over the same fields; the round trip "
-                                                       "is their composition); the v1 round trip, from_jsonfile's version dispatch, the x509 element (base64) and the "
-                                                       "version-2 chain walk over unboundedly many element names are NOT under contract (v1 round trip: bounded harness only)",
+                                                       "is their composition); the same two contracts for version-1 elements; HSMCertificate.to_dict / save_to_jsonfile / "
+                                                       "from_jsonfile (file I/O, version dispatch), the x509 element (base64) and the version-2 chain walk over unboundedly many "
+                                                       "element names are NOT under contract (certificate-level v1 round trip and v2 graphs: bounded harnesses only)",
                                                        "A-CSTRUCT: CStruct layouts read off the real classes by executing them (spec/cstruct.py)",
                                                        "A-CRYPTO(P-256): ecdsa VerifyingKey.from_string / to_string as uninterpreted functions with the parse-back axiom"],
                 trusted_base=["spec/certs.py"],
                 explanation="v1 element names are restricted to four constants, so the element map is a finite map and paths are finite formulas; "
                             "while-loops are unrolled with an unwinding assertion (complete when it is discharged)",
                 extras=[_certs_bounded("C16"), _certs_v2_bounded("C16")]),
-    "C06": dict(level="proof", assumptions=COMMON + ["A-CRYPTO: secp256k1 ECDSA / HMAC tweak / key parsing as uninterpreted cert.link_valid, cert.pubkey_of_hex"],
+    "C06": dict(level="proof", assumptions=COMMON + ["A-CRYPTO: the secp256k1 and hmac library calls (PublicKey parse / serialize / tweak_add / ecdsa_deserialize / ecdsa_verify, hmac.new) "
+                                                       "as uninterpreted functions; the property's link condition is written over them (spec/certs.py link_valid) and is_valid is VERIFIED against it",
+                                                       "the root of trust is an HSMCertificateRoot whose key was parsed successfully (its constructor is not under contract)",
+                                                       "'the reported value is exactly the target's signed message' is read as: the part of the message the element kind designates "
+                                                       "(whole message for ui and signer; last 65 bytes for device, all but the first byte for attestation), in lower-case hex"],
                 trusted_base=["spec/certs.py"],
                 explanation="verdict of every target compared with a recursive specification over the finite element map",
                 extras=[_certs_bounded("C06")]),
